@@ -56,6 +56,8 @@ def main():
         W = "/tmp/wt/r5-%s" % pid  # round 5
     if any(m in ("m16", "m17", "m18") for m in ms):
         W = "/tmp/wt/r6-%s" % pid  # round 6
+    if any(m in ("m19", "m20", "m21") for m in ms):
+        W = "/tmp/wt/r7-%s" % pid  # round 7
     take_slot()
     for m in ms:
         out = os.path.join(W, "_out", m)
